@@ -120,7 +120,9 @@ def run(case):
         tgt = hdr if form == "header" else dict(hdr)
     kwargs = {"algorithm": case["alg"], "return_footprint": case["fp"]}
     if case["so"] in ("given", "same"):
-        kwargs["shape_out"] = tuple(case["shape_out"])
+        import zlib
+        conv = [tuple, tuple, list, np.array][zlib.crc32(("so" + case["key"]).encode()) % 4]      # the shape as tuple, list or array
+        kwargs["shape_out"] = conv(case["shape_out"])
     elif case["so"] == "empty":
         kwargs["shape_out"] = ()
     before = (cube.data.copy(), repr(cube.wcs.to_header()), cube.unit, dict(cube.meta), cube.mask.copy())
